@@ -30,6 +30,8 @@ type Reader struct {
 	pos      int
 	errGiven bool
 	Reads    int64 // number of Read calls (cost accounting)
+	// OnRead, if set, runs at the start of every Read (a scheduling point: a goroutine that waits for a segment)
+	OnRead func()
 
 	Matcher     api.RequestResponseMatcher
 	IsClient    bool
@@ -43,6 +45,9 @@ type Reader struct {
 
 func (r *Reader) Read(p []byte) (int, error) {
 	atomic.AddInt64(&r.Reads, 1)
+	if r.OnRead != nil {
+		r.OnRead()
+	}
 	for r.pos < len(r.Chunks) && len(r.Chunks[r.pos]) == 0 {
 		r.pos++
 	}
@@ -73,14 +78,14 @@ func (r *Reader) Read(p []byte) (int, error) {
 }
 
 func (r *Reader) GetReqResMatcher() api.RequestResponseMatcher { return r.Matcher }
-func (r *Reader) GetIsClient() bool                             { return r.IsClient }
-func (r *Reader) GetReadProgress() *api.ReadProgress            { return r.Progress }
-func (r *Reader) GetParent() api.TcpStream                      { return r.Parent }
-func (r *Reader) GetTcpID() *api.TcpID                          { return r.TcpID }
-func (r *Reader) GetCounterPair() *api.CounterPair              { return r.CounterPair }
-func (r *Reader) GetCaptureTime() time.Time                     { return r.CaptureTime }
-func (r *Reader) GetEmitter() api.Emitter                       { return r.Emitter }
-func (r *Reader) GetIsClosed() bool                             { return false }
+func (r *Reader) GetIsClient() bool                            { return r.IsClient }
+func (r *Reader) GetReadProgress() *api.ReadProgress           { return r.Progress }
+func (r *Reader) GetParent() api.TcpStream                     { return r.Parent }
+func (r *Reader) GetTcpID() *api.TcpID                         { return r.TcpID }
+func (r *Reader) GetCounterPair() *api.CounterPair             { return r.CounterPair }
+func (r *Reader) GetCaptureTime() time.Time                    { return r.CaptureTime }
+func (r *Reader) GetEmitter() api.Emitter                      { return r.Emitter }
+func (r *Reader) GetIsClosed() bool                            { return false }
 
 // Stream counts items; GetIndex / IncrementItemCount are individually atomic (the assumption
 // C19 makes about the TcpStream implementation).
@@ -88,6 +93,7 @@ type Stream struct {
 	PcapId    string
 	itemCount int64
 	Emittable int32
+	Closed    int32 // what GetIsClosed reports (a stream can be closed while a half still emits buffered data)
 	Protocol  *api.Protocol
 	mu        sync.Mutex
 }
@@ -101,7 +107,7 @@ func (t *Stream) GetReqResMatchers() []api.RequestResponseMatcher {
 	return nil
 }
 func (t *Stream) GetIsTargeted() bool { return true }
-func (t *Stream) GetIsClosed() bool   { return false }
+func (t *Stream) GetIsClosed() bool   { return atomic.LoadInt32(&t.Closed) == 1 }
 func (t *Stream) IncrementItemCount() { atomic.AddInt64(&t.itemCount, 1) }
 
 // Collector is an Emitter that only collects (no index assignment); used where the real
